@@ -1,6 +1,7 @@
 package main
 
 import (
+	"runtime"
 	"fmt"
 	"io"
 	"log"
@@ -35,9 +36,12 @@ type stepResult struct {
 	Frames []string `json:"frames"`
 	Snap   []string `json:"snap"`
 	Note   string   `json:"note,omitempty"` // WEDGED / TIMEOUT / client-side errors
+	Alloc  uint64   `json:"alloc,omitempty"` // bytes the process allocated during the step (hostile steps only)
+	Sent   int      `json:"sent,omitempty"`  // bytes the hostile op wrote
 }
 
 type session struct {
+	rawSent int
 	cfg     sessionCfg
 	srv     *server.Server
 	addr    string
@@ -159,7 +163,7 @@ func (s *session) quiesce() string {
 				}
 				continue
 			}
-			if cs.Handled+0 < c.nsent-0 && cs.Read >= 0 {
+			if !c.poisoned && cs.Handled+0 < c.nsent-0 && cs.Read >= 0 {
 				// frames not yet handled; frames the reader itself consumes (dropped before dispatch) make the broker close
 				if cs.Handled < c.nsent {
 					q = false
@@ -389,6 +393,31 @@ func (s *session) exec(op string) string {
 	case "CLOSEOK": // connection.close-ok (answer to a server-initiated close)
 		err = c.sendMethod(0, method(10, 51))
 		s.gone[c.id] = true
+	case "BADM": // BADM c h kind : a well-framed method frame that does not decode
+		var p []byte
+		switch atoi(f[3]) % 5 {
+		case 0:
+			p = []byte{0x03, 0xe7, 0x00, 0x01} // class 999
+		case 1:
+			p = []byte{0x00, 0x32, 0x03, 0xe7} // queue.<999>
+		case 2:
+			p = []byte{0x00, 0x32, 0x00, 0x0a, 0x00, 0x00, 0x05, 'q'} // queue.declare cut inside the name
+		case 3:
+			p = []byte{0x00, 0x32} // not even a method id
+		default:
+			p = []byte{0x00, 0x00, 0x00, 0x00}
+		}
+		err = c.send(frame{typ: frameMethod, channel: h, payload: p})
+	case "HB": // HB c h : heartbeat frame
+		err = c.send(frame{typ: 8, channel: h, payload: nil})
+	case "RAW": // RAW c kind seed : hostile bytes (built deterministically from kind and seed)
+		b := hostileBytes(atoi(f[2]), uint64(atoi(f[3])))
+		s.rawSent += len(b)
+		_ = c.nc.SetWriteDeadline(time.Now().Add(2 * time.Second))
+		_, err = c.nc.Write(b)
+		// framing is lost from here on: the frame counters of this connection mean nothing any more
+		c.poisoned = true
+		time.Sleep(30 * time.Millisecond)
 	case "STARTOK": // STARTOK c <good> mech user pass [raw]   (<good> is for the model; raw: response without NULs)
 		w := method(10, 11)
 		w.table(nil)
@@ -657,12 +686,24 @@ func (s *session) open(id int) string {
 // step = exec + quiesce + observation
 func (s *session) step(op string) stepResult {
 	r := stepResult{Op: op}
+	hostile := strings.HasPrefix(op, "RAW ")
+	var m0, m1 runtime.MemStats
+	if hostile {
+		runtime.GC()
+		runtime.ReadMemStats(&m0)
+		s.rawSent = 0
+	}
 	r.Note = s.exec(op)
 	if q := s.quiesce(); q != "" {
 		if r.Note != "" {
 			r.Note += "; "
 		}
 		r.Note += q
+	}
+	if hostile {
+		runtime.ReadMemStats(&m1)
+		r.Alloc = m1.TotalAlloc - m0.TotalAlloc
+		r.Sent = s.rawSent
 	}
 	ids := make([]int, 0, len(s.clients))
 	for id := range s.clients {
